@@ -332,6 +332,7 @@ class DescriptorTransaction(_TransactionBase):
                         orig_descriptor.Handle, orig_descriptor.DescriptorVersion)
                     all_descriptors = self._mdib.get_all_descriptors_in_subtree(orig_descriptor)
                     self._mdib.rm_descriptors_and_states(all_descriptors)
+                    self._discard_state_updates_of({d.Handle for d in all_descriptors})
                     proc.descr_deleted.extend([d.mk_copy() for d in all_descriptors])
                     # increment DescriptorVersion if a child descriptor is added or deleted.
                     if orig_descriptor.parent_handle is not None \
@@ -406,6 +407,20 @@ class DescriptorTransaction(_TransactionBase):
                     new_state.DescriptorVersion = descriptor_container.DescriptorVersion
                     new_state.increment_state_version()
                     updates_dict[descriptor_container.Handle] = TransactionItem(old_state, new_state)
+
+    def _discard_state_updates_of(self, descriptor_handles: set[str]):
+        """Forget state updates collected so far for descriptors that this transaction removes.
+
+        Otherwise the state of a removed descriptor (e.g. of a parent whose version was incremented because a child
+        was removed before) would be written to the mdib again.
+        """
+        for updates_dict in (self.alert_state_updates, self.metric_state_updates, self.context_state_updates,
+                             self.component_state_updates, self.operational_state_updates,
+                             self.rt_sample_state_updates):
+            for key, tr_item in list(updates_dict.items()):
+                state = tr_item.new if tr_item.new is not None else tr_item.old
+                if state is not None and state.DescriptorHandle in descriptor_handles:
+                    del updates_dict[key]
 
     def _increment_parent_descriptor_version(self, proc: TransactionResult,
                                              descriptor_container: AbstractDescriptorProtocol):
